@@ -23,6 +23,22 @@ COMMUTATIVE_CALLS = {
     'inner', 'np.maximum', 'np.minimum', 'max', 'min', 'np.add', 'np.multiply', 'np.union1d', 'np.intersect1d',
     'np.logical_and', 'np.logical_or', 'np.allclose', 'np.array_equal', 'np.fmax', 'np.fmin', 'set.union',
 }
+ANTONYM_CALLS = {}
+for _a, _b in (('min', 'max'), ('np.minimum', 'np.maximum'), ('np.argmin', 'np.argmax'), ('np.min', 'np.max'), ('np.floor', 'np.ceil'),
+               ('math.floor', 'math.ceil'), ('any', 'all'), ('np.any', 'np.all'), ('np.triu_indices', 'np.tril_indices'), ('np.triu', 'np.tril'),
+               ('np.zeros', 'np.ones'), ('np.zeros_like', 'np.ones_like'), ('np.logical_and', 'np.logical_or')):
+    ANTONYM_CALLS[_a] = _b
+    ANTONYM_CALLS[_b] = _a
+
+
+def _name_tree(dotted):
+    parts = dotted.split('.')
+    t = ('N', parts[0])
+    for p in parts[1:]:
+        t = ('A', t, p)
+    return t
+
+
 COMM_BINOPS = (ast.Add, ast.Mult, ast.BitOr, ast.BitAnd, ast.BitXor)
 NONCOMM_BINOPS = (ast.Sub, ast.Div, ast.MatMult, ast.Pow, ast.FloorDiv, ast.Mod, ast.LShift, ast.RShift)
 
@@ -180,6 +196,27 @@ def _neighbours(t):
         yield (('NotEq' if tag == 'Eq' else 'Eq'), t[1], t[2]), 'equality test negated'
     if tag in ('Is', 'IsNot') and len(t) == 3:
         yield (('IsNot' if tag == 'Is' else 'Is'), t[1], t[2]), 'identity test negated'
+    if tag in ('In', 'NotIn') and len(t) == 3:
+        yield (('NotIn' if tag == 'In' else 'In'), t[1], t[2]), 'membership test negated'
+    if tag == 'Not' and len(t) == 2:
+        yield t[1], 'negation removed'
+    if tag == 'B':
+        yield ('B', not t[1]), 'boolean constant flipped'
+    if tag == 'S' and isinstance(t[1], str) and len(t[1]) <= 14 and ' ' not in t[1]:
+        yield ('S?', t[1]), 'string flag changed'
+    _swap = {'Mult': 'Div', 'Div': 'Mult', 'FloorDiv': 'Div', 'BitOr': 'BitAnd', 'BitAnd': 'BitOr', 'MatMult': 'Mult'}
+    if tag in _swap and len(t) == 3 and tag in ('Div', 'FloorDiv', 'MatMult'):
+        yield (_swap[tag], t[1], t[2]) if _swap[tag] not in ('Mult',) else ('Mult',) + tuple(sorted((t[1], t[2]), key=repr)), 'operator %s replaced by %s' % (tag, _swap[tag])
+    if tag in ('BitOr', 'BitAnd') and len(t) >= 3:
+        yield (_swap[tag],) + t[1:], 'set/bit operator %s replaced by %s' % (tag, _swap[tag])
+    if tag == 'Mult' and len(t) == 3:
+        yield ('Div', t[1], t[2]), 'operator Mult replaced by Div'
+        yield ('Div', t[2], t[1]), 'operator Mult replaced by Div'
+    if tag == 'C':
+        fname0 = _tree_src(t[1])
+        anti = ANTONYM_CALLS.get(fname0)
+        if anti:
+            yield ('C', _name_tree(anti), t[2], t[3]), 'call of %s replaced by its opposite %s' % (fname0, anti)
     if tag in ('And', 'Or'):
         yield (('Or' if tag == 'And' else 'And'),) + t[1:], 'and/or exchanged'
         for i in range(1, len(t)):
@@ -225,6 +262,8 @@ def _neighbours(t):
                 for m, d in _inner(fn[1]):
                     yield _rebuild(t, 1, ('A', m, fn[2])), d
             continue
+        if tag in ('Add', 'Mod', 'F') and isinstance(t[i], tuple) and t[i] and t[i][0] == 'S':
+            continue        # pieces of a concatenated / formatted text (names, messages), not flags
         for m, d in _inner(t[i]):
             yield _rebuild(t, i, m), d
 
@@ -321,6 +360,9 @@ def _match(obs, mut):
             and _round(obs)[1] != _round(('K', mut[1]))[1]
     if isinstance(mut, tuple) and mut and mut[0] == 'A?':
         return isinstance(obs, tuple) and len(obs) == 3 and obs[0] == 'A' and obs[1] == mut[1] and obs[2] != mut[2]
+    if isinstance(mut, tuple) and mut and mut[0] == 'S?':
+        return isinstance(obs, tuple) and len(obs) == 2 and obs[0] == 'S' and obs[1] != mut[1] and isinstance(obs[1], str) \
+            and len(obs[1]) <= 14 and ' ' not in obs[1]
     if isinstance(mut, tuple) and mut and mut[0] == 'N?':
         if isinstance(obs, tuple) and len(obs) == 2 and obs[0] == 'N' and obs[1] != mut[1]:
             _CAPTURE.append(obs[1])
@@ -354,7 +396,7 @@ def compare(observed, expected, mutations=None, names=False):
         if not names and d.startswith('variable '):
             continue
         rm = repr(m)
-        mm = _normalise_consts(m) if ('K?' not in rm and 'A?' not in rm and 'N?' not in rm) else m
+        mm = _normalise_consts(m) if ('K?' not in rm and 'A?' not in rm and 'N?' not in rm and 'S?' not in rm) else m
         del _CAPTURE[:]
         if _match(o, mm):
             if d.startswith('variable ') and _CAPTURE:
